@@ -30,7 +30,7 @@ ASSUMPTIONS = [
     "recursion error) by library blocks, 'ping' handled by probes",
 ]
 REQUIRED = {'events_entered': 2000, 'reentry_attempts_refused': 100, 'followups_ok': 2000,
-            'harmless_stimuli': 500, 'legit_nested_fsm': 30, 'filter_rejections': 100,
+            'harmless_stimuli': 500, 'legit_nested_fsm': 30, 'fsm_exit_action_reentry': 30, 'filter_rejections': 100,
             'eventcond_none': 50, 'unknown_or_param_errors': 100, 'handler_failures': 20,
             'init_by_event': 20}
 SHARDS = {'quick': 8, 'thorough': 16}
@@ -187,6 +187,9 @@ def gen(ctx):
                     continue
             if b['kind'] == 'fsm':
                 b['opts']['chain'] = rng.choice(['none', 'none', 'enter', 'timer'])
+                # an exit action that sends an event to its own FSM: never a documented
+                # exception, not even in the intermediate state of a chained transition
+                b['opts']['exit_send'] = rng.choice(['none', 'none', 'none', 'b', 'a', 'c'])
             if b['kind'] == 'input':
                 b['opts']['initdef'] = rng.random() < 0.7
             if b['kind'] == 'probe':
@@ -196,7 +199,7 @@ def gen(ctx):
             for _ in range(k):
                 j = rng.randrange(nb)
                 via = {'probe': ['fwd'], 'input': ['on_output', 'on_every'],
-                       'counter': ['on_output', 'on_every'], 'fsm': ['on_enter_a', 'on_enter_b', 'on_output'],
+                       'counter': ['on_output', 'on_every'], 'fsm': ['on_enter_a', 'on_enter_b', 'on_output', 'on_exit_a', 'on_exit_b'],
                        'ofunc': ['on_success']}[b['kind']]
                 edge = {'to': j, 'via': rng.choice(via),
                         'filter': rng.choice([None, None, None, 'pass', 'reject', 'alt']),
@@ -273,6 +276,20 @@ def run_case(case, ctx):
                 finally:
                     self.x_in_enter -= 1
 
+        def _exit_send(self, state):
+            if getattr(self, 'x_exit_send', 'none') == state:
+                ctx.count('fsm_exit_action_reentry')
+                self.event('toggle')
+
+        def exit_a(self):
+            self._exit_send('a')
+
+        def exit_b(self):
+            self._exit_send('b')
+
+        def exit_c(self):
+            self._exit_send('c')
+
     def mk_event(b, e, idx):
         dest = blocks[e['to']]
         etype = ETYPE_FOR[dest['kind']]
@@ -325,7 +342,9 @@ def run_case(case, ctx):
             elif k == 'fsm':
                 created[i] = Toggle(name, on_enter_a=evs.get('on_enter_a'),
                                     on_enter_b=evs.get('on_enter_b'),
-                                    on_output=evs.get('on_output'), x_chain=b['opts']['chain'])
+                                    on_exit_a=evs.get('on_exit_a'), on_exit_b=evs.get('on_exit_b'),
+                                    on_output=evs.get('on_output'), x_chain=b['opts']['chain'],
+                                    x_exit_send=b['opts'].get('exit_send', 'none'))
             elif k == 'repeat':
                 created[i] = edzed.Repeat(name, dest=blocks[b['opts']['dest']]['name'],
                                           etype='put', interval=1000, count=0)
